@@ -26,7 +26,7 @@ TRUSTED = [
     "scipy toeplitz/hankel, np.roll, itertools.product, np.frexp power-of-two test are modelled by their definitions)",
     "the Box-Behnken in-place slice assignments H[4(Index-1):4 Index, i] = H_fact[:, 0] are modelled functionally (one block of four rows per pair, in loop order)",
     "the harness plays the user in the histories (one shared parameter list / Problem, generator objects reused, bounds edited, returned "
-    "vectors overwritten) and keeps its own immutable record of the bounds and level lists the model is evaluated on",
+    "vectors overwritten) and keeps its own record of the bounds and level lists the model is evaluated on (tuples that never reach artap; the harness updates it when the user edits a bound or a level table, so it holds the values current at the time of each call)",
     "level values are binary64 floats compared bit for bit; the mid level (l_b + u_b) / 2 and list.sort() of three levels are evaluated with PrimFloat in the driver Run/C13Run.v",
 ]
 ASSUMPTIONS = [
@@ -122,7 +122,7 @@ def run(ctx):
 
     def push(kind, case, exp, m, key, nontrivial=True):
         # a (case, observed) pair that is literally the one already sent to Coq has the same verdict: it is counted, not
-        # re-evaluated (the runs of a history on one problem are all compared with the model on the same original bounds)
+        # re-evaluated (the runs of a history between two user edits are all compared with the model on the same bounds / levels)
         if (case, exp) in pushed:
             kinds[kind] += 1
             kinds["identical_to_an_earlier_comparison"] += 1
@@ -543,9 +543,11 @@ def run(ctx):
     # =========================================================================================
     # The user's bounds / level lists are recorded by the harness as tuples that never reach artap (`ref_*`); the
     # generators get one shared mutable parameter list (and one shared list of level lists), as `problem.parameters`
-    # is in normal use.  Every run of a history is compared with the model evaluated on the ORIGINAL bounds / levels
-    # (the model is a function of immutable inputs: a run cannot influence a later one there), the direct oracle
-    # evaluates the property clauses against the original bounds, and the purity oracle requires the shared
+    # is in normal use.  Every run of a history is compared with the model evaluated on the bounds / levels CURRENT at the
+    # time of the call: what the user wrote down, followed through his own edits between runs (set_bounds / edit_values /
+    # set_values update `ref_*`), never what artap may have done to the shared structures (the model is a function of
+    # immutable inputs: a run cannot influence a later one there), the direct oracle evaluates the property clauses
+    # against the same record, and the purity oracle requires the shared
     # structures to be bit-identical before and after every generate().
     import atexit
     import logging
@@ -755,7 +757,7 @@ def run(ctx):
                         fail("the design returned by step %d of the history was modified by the run of step %d (%s)"
                              % (item[2], idx, cls), inp, "purity")
 
-                # ---- correspondence with the model on the original bounds / levels, and the property clauses on them
+                # ---- correspondence with the model on the recorded bounds / levels current at this call, and the property clauses on them
                 if op == "full":
                     center = bool(st["center"])
                     case = "CFull %s %s" % (bl(center), bounds_lit(ref_bounds))
@@ -1082,7 +1084,7 @@ def run(ctx):
                 "level appended, inserted, dropped, overwritten, levels replaced by slice or by a new inner list, tables swapped - and "
                 "init() with it again) and on one dict / list handed repeatedly to the doe.py functions (edited in place between calls): "
                 "every run of a history is compared with the model on the bounds / levels the user's structures hold at the time of the "
-                "call (the harness's own immutable record), and the shared structures must be bit-identical before and after every run; a case is non-trivial when the implementation returned a design (rejected sizes are compared too but not "
+                "call (the harness's own record, which follows the user's edits and never reaches artap), and the shared structures must be bit-identical before and after every run; a case is non-trivial when the implementation returned a design (rejected sizes are compared too but not "
                 "counted); distinct = distinct (generator, parameters) resp. (history so far, parameters)") % ctx.pick(8, 12)
     ordered_pairs = sorted("%s -> %s" % ab for ab in adjacent)
     ctx.extra.update({"case_kinds": dict(kinds), "exceptions_compared": dict(errors), "sizes": dict(sorted(sizes.items())),
@@ -1105,13 +1107,13 @@ LEVEL_TEXT = ("Machine-checked Coq theorems over an executable model of fullfact
               "does not raise (it provably does not for >= 2 factors with r <= every level count). The model is tied to the Generator "
               "classes and doe.build_gsd on every run by comparing complete row lists, in order, for generated parameter sets - single runs "
               "on fresh parameters and histories of runs on one shared parameter list / one Problem, each run compared with the model on "
-              "the user's original bounds and levels, with a purity oracle on the shared structures.")
+              "the bounds and levels the user's structures hold at the time of the call (the harness's own record, which follows the user's edits between runs), with a purity oracle on the shared structures.")
 LEVEL_NOTE = ("Full (no partial theorem). Trusted: Coq kernel + vm_compute; the hand-written model and the Python harness. Correspondence is "
               "sampled (corpus + generated cases); the theorems are unbounded except pb_structure, whose bound 1..23 is the property's own. "
               "The model's designs are functions of immutable inputs (lists of level values), so in the model a run cannot influence a later "
               "run, nor change the problem, by construction; that the code behaves like that - generate() leaves the parameter dicts, bounds "
-              "lists and level lists bit-identical, and every run of a sequence on one parameter list equals the model on the original "
-              "bounds - is not a theorem but is checked on every run of the check by the history correspondence and the purity oracle "
-              "(sampled: all ordered pairs of generator configurations plus random sequences of 2..5 runs). doe.build_box_behnken and "
+              "lists and level lists bit-identical, and every run of a sequence on one parameter list equals the model on the "
+              "bounds and levels current at the time of the call (the user's, followed through his own edits) - is not a theorem but is checked on every run of the check by the history correspondence and the purity oracle "
+              "(sampled: all ordered pairs of generator configurations, directed rerun / edit_in_place sessions on one long-lived generator object, three eight-run sessions on a real Problem, plus random sequences of 2..5 runs). doe.build_box_behnken and "
               "doe.build_plackett_burman do rewrite caller-supplied lists in place (two-element resp. non-two-element lists); the Generator "
               "classes shield the problem by passing fresh lists, which is what the purity oracle asserts.")
